@@ -338,7 +338,10 @@ class Interp:
     def drop_links(self, state, rootkind, root=None):
         for lk, v in list(state.locals.items()):
             if v[0] == "fin" and v[3]:
-                keep = tuple(l for l in v[3] if not (l[0][0] == rootkind and (root is None or l[0][:2] == root[:2])))
+                if rootkind == "local":
+                    keep = tuple(l for l in v[3] if l[0][0] != root)
+                else:
+                    keep = tuple(l for l in v[3] if not (l[0][0][0] == rootkind and (root is None or l[0][0][:2] == root[:2])))
                 if len(keep) != len(v[3]):
                     state.locals[lk] = ("fin", v[1], v[2], keep)
 
@@ -575,7 +578,13 @@ class Interp:
     def eval_rvalue(self, state, frame, r, dest_ty):
         k = r["k"]
         if k == "use":
-            return self.eval_operand(state, frame, r["o"])
+            v = self.eval_operand(state, frame, r["o"])
+            p = r["o"].get("copy")
+            if p is not None and not p["p"] and v[0] == "fin" and v[1] == BOOL and len(v[2]) > 1:
+                # a copied flag: branching on the copy also decides the original
+                src = (("local", frame.fid, p["l"]), ())
+                v = ("fin", BOOL, v[2], v[3] + ((src, "fin", frozenset([(1,)]), frozenset([(0,)])),))
+            return v
         if k == "ref" or k == "rawptr":
             loc = self.resolve(state, frame, r["p"])
             if loc is None or loc[0] == "anyjob":
